@@ -22,6 +22,11 @@ pub enum Case {
         /// "relaxed", 1 = listed as removed with the empty reason, 2 = a real `relax_constraint(id, "")`
         #[serde(default)]
         removed_how: u8,
+        /// the layout of releases before the all-constraints flag existed: only tag 4 (feasibility for
+        /// the constraints of the instance, all of them active then); only the id getters of the
+        /// remaining-constraints sense are defined for it
+        #[serde(default)]
+        tag4_only: bool,
         /// store objectives and constraint values grouped by VALUE (SampledValues::from_iter), as a
         /// conforming writer may, instead of by state
         #[serde(default)]
@@ -148,7 +153,7 @@ pub fn check_case(l: &mut Local, case: &Case) {
                 }
             }
         }
-        Case::Best { samples, sense, legacy, by_value, removed_how } => {
+        Case::Best { samples, sense, legacy, by_value, removed_how, tag4_only } => {
             let samples: Vec<(f64, u8)> = samples.iter().map(|s| (s.0 .0, s.1)).collect();
             let samples = &samples;
             let inst = match best_instance(*sense, *removed_how) {
@@ -186,12 +191,26 @@ pub fn check_case(l: &mut Local, case: &Case) {
             } else {
                 ss
             };
+            #[allow(deprecated)]
+            let ss = if *tag4_only {
+                let mut old = ss.clone();
+                old.feasible = if *legacy { ss.feasible.clone() } else { ss.feasible_relaxed.clone() };
+                old.feasible_unrelaxed = Default::default();
+                old.feasible_relaxed = Default::default();
+                match v1::SampleSet::decode(old.encode_to_vec().as_slice()) {
+                    Ok(s) => s,
+                    Err(e) => return l.violation("best/legacy-decode", || json!(case), e.to_string()),
+                }
+            } else {
+                ss
+            };
             let tag = match (*legacy, *by_value) {
                 (true, false) => "legacy",
                 (false, false) => "current",
                 (true, true) => "legacy+grouped-by-value",
                 (false, true) => "current+grouped-by-value",
             };
+            let tag = if *tag4_only { "tag4-only" } else { tag };
             let tag = match removed_how {
                 0 => tag.to_string(),
                 1 => format!("{tag}+empty-reason"),
@@ -201,6 +220,9 @@ pub fn check_case(l: &mut Local, case: &Case) {
                 l.nontrivial += 1;
             }
             for (which, min_class) in [("remaining-constraints", 1u8), ("all-constraints", 2u8)] {
+                if *tag4_only && min_class == 2 {
+                    continue;
+                }
                 l.transitions += 1;
                 let feasible: Vec<usize> = (0..samples.len()).filter(|k| samples[*k].1 >= min_class).collect();
                 let want_ids: BTreeSet<u64> = feasible.iter().map(|k| SAMPLE_IDS[*k]).collect();
@@ -249,6 +271,9 @@ pub fn check_case(l: &mut Local, case: &Case) {
                         || json!(case),
                         format!("returned id {id} with objective {} under sense {sense}, but another feasible sample is strictly better (samples {samples:?})", samples[k].0),
                     );
+                }
+                if *tag4_only {
+                    continue; // the Solution getters need the all-constraints flag, which this layout lacks
                 }
                 // the Solution getters agree with the id getters
                 let sol = sdk(|| if min_class == 1 { ss.best_feasible() } else { ss.best_feasible_unrelaxed() }.map_err(|e| format!("{e:#}")));
@@ -310,26 +335,29 @@ pub fn run(ctx: &Ctx) -> Finish {
             l.states += 1;
             for sense in [SENSE_MIN, SENSE_MAX] {
                 for legacy in [false, true] {
-                    let case = Case::Best { samples: samples.clone(), sense, legacy, by_value: false, removed_how: 0 };
+                    let case = Case::Best { samples: samples.clone(), sense, legacy, by_value: false, removed_how: 0, tag4_only: false };
                     if k == 4 && legacy && ctx.want_sample((1 << 40) + idx as u64) {
                         l.samples.push(((1 << 40) + idx as u64, json!(case)));
                     }
                     check_case(l, &case);
                     if k <= 5 {
-                        check_case(l, &Case::Best { samples: samples.clone(), sense, legacy, by_value: true, removed_how: 0 });
+                        check_case(l, &Case::Best { samples: samples.clone(), sense, legacy, by_value: true, removed_how: 0, tag4_only: false });
+                    }
+                    if k <= 4 && !legacy {
+                        check_case(l, &Case::Best { samples: samples.clone(), sense, legacy: false, by_value: false, removed_how: 0, tag4_only: true });
                     }
                     if k <= 4 {
                         // the relaxed constraint carries the empty reason (listed so / after a real relax_constraint)
                         for removed_how in [1u8, 2] {
-                            check_case(l, &Case::Best { samples: samples.clone(), sense, legacy, by_value: false, removed_how });
+                            check_case(l, &Case::Best { samples: samples.clone(), sense, legacy, by_value: false, removed_how, tag4_only: false });
                         }
                         // infinite objective values (an overflowing objective): still ordered, still selectable
                         let ext: Vec<(X, u8)> = samples.iter().map(|s| (X(if s.0 .0 == values[0] { f64::NEG_INFINITY } else if s.0 .0 == values[2] { f64::INFINITY } else { s.0 .0 }), s.1)).collect();
-                        check_case(l, &Case::Best { samples: ext, sense, legacy, by_value: false, removed_how: 0 });
+                        check_case(l, &Case::Best { samples: ext, sense, legacy, by_value: false, removed_how: 0, tag4_only: false });
                         // objective values closer together than machine epsilon are still different numbers
                         let tiny = 2f64.powi(-60);
                         let near: Vec<(X, u8)> = samples.iter().map(|s| (X(if s.0 .0 == values[0] { -tiny } else if s.0 .0 == values[2] { tiny } else { 0.0 }), s.1)).collect();
-                        check_case(l, &Case::Best { samples: near, sense, legacy, by_value: false, removed_how: 0 });
+                        check_case(l, &Case::Best { samples: near, sense, legacy, by_value: false, removed_how: 0, tag4_only: false });
                     }
                 }
             }
@@ -348,7 +376,7 @@ pub fn run(ctx: &Ctx) -> Finish {
             l.states += 1;
             for sense in [SENSE_MIN, SENSE_MAX] {
                 for legacy in [false, true] {
-                    check_case(l, &Case::Best { samples: samples.clone(), sense, legacy, by_value: false, removed_how: 0 });
+                    check_case(l, &Case::Best { samples: samples.clone(), sense, legacy, by_value: false, removed_how: 0, tag4_only: false });
                 }
             }
         });
@@ -358,16 +386,16 @@ pub fn run(ctx: &Ctx) -> Finish {
             for k in 7..=8usize {
                 for sense in [SENSE_MIN, SENSE_MAX] {
                     for legacy in [false, true] {
-                        check_case(l, &Case::Best { samples: vec![(X(2.0), 0); k], sense, legacy, by_value: false, removed_how: 0 });
-                        check_case(l, &Case::Best { samples: vec![(X(2.0), 2); k], sense, legacy, by_value: true, removed_how: 0 });
+                        check_case(l, &Case::Best { samples: vec![(X(2.0), 0); k], sense, legacy, by_value: false, removed_how: 0, tag4_only: false });
+                        check_case(l, &Case::Best { samples: vec![(X(2.0), 2); k], sense, legacy, by_value: true, removed_how: 0, tag4_only: false });
                         for pos in 0..k {
                             for class in [1u8, 2] {
                                 let mut s: Vec<(X, u8)> = (0..k).map(|i| (X(values[i % 3]), 0)).collect();
                                 s[pos].1 = class;
-                                check_case(l, &Case::Best { samples: s, sense, legacy, by_value: pos % 2 == 0, removed_how: 0 });
+                                check_case(l, &Case::Best { samples: s, sense, legacy, by_value: pos % 2 == 0, removed_how: 0, tag4_only: false });
                                 let mut s: Vec<(X, u8)> = (0..k).map(|i| (X(values[(i + pos) % 3]), 2)).collect();
                                 s[pos] = (X(if sense == SENSE_MAX { 7.0 } else { -7.0 }), class);
-                                check_case(l, &Case::Best { samples: s, sense, legacy, by_value: pos % 2 == 0, removed_how: 0 });
+                                check_case(l, &Case::Best { samples: s, sense, legacy, by_value: pos % 2 == 0, removed_how: 0, tag4_only: false });
                             }
                         }
                     }
